@@ -54,6 +54,8 @@ class FlagSerde:
             return (b"T" if value else b"F"), 4
         if isinstance(value, int):
             return str(value).encode(), 2
+        if isinstance(value, float):
+            return repr(value).encode(), 1 << 20  # the flags field is 32 bits wide: only a high bit set
         return repr(value).encode(), 8
 
     def deserialize(self, key, value, flags):
@@ -65,6 +67,10 @@ class FlagSerde:
             return int(value)
         if flags == 4:
             return value == b"T"
+        if flags == 1 << 20:
+            return float(value)
+        if flags != 8:
+            raise ValueError(f"flags {flags} were never written by this serializer")
         return eval(value.decode())
 
 
@@ -216,7 +222,7 @@ def _w_values(job, chk):
                  [(v, "ascii") for v in text_values() if not (isinstance(v, str) and not v.isascii())]
     elif sname in ("custom", "repr0"):
         values = [(v, "ascii") for v in byte_values(tier)[:60] + byte_values(tier)[-20:]] + \
-                 [(v, "ascii") for v in ("", "é", 0, 5, True, False, ("t", 1), [1, 2], None)]
+                 [(v, "ascii") for v in ("", "é", 0, 5, True, False, ("t", 1), [1, 2], None, 1.5, -0.25)]
     else:
         values = [(v, "ascii") for v in byte_values(tier)[:40] + byte_values(tier)[-22:]] + [(v, "ascii") for v in object_values()]
     if sname == "repr0":
@@ -272,6 +278,7 @@ def key_universe(uni, prefix):
     if prefix and len(prefix) < 100:
         # a caller's key may itself begin with the prefix bytes: it is a different key from the one without them
         keys += [b"user", prefix + b"user", prefix.decode("latin-1") if prefix.isascii() else prefix]
+        keys += [""]  # with a prefix the empty key is a key like any other (it is the prefix on the wire)
     return keys
 
 
